@@ -52,6 +52,25 @@ def run_one(v, repo):
             r = subprocess.run(["patch", "-p1", "-s", "-d", tmp, "-i", v["patch"]], capture_output=True, text=True)
             if r.returncode != 0:
                 return v, "SKIP", "seeded patch no longer applies"
+        if v.get("transform"):
+            # a whole-package twin: every local renamed (selftest/rename_twins.py) / every function reshaped (selftest/shape_twins.py)
+            sys.path.insert(0, HERE)
+            root = os.path.join(tmp, "src", "fparser")
+            if v["transform"] == "rename":
+                import rename_twins
+                for d, _dirs, files in os.walk(root):
+                    for fn in files:
+                        if fn.endswith(".py") and fn != "__init__.py":
+                            path = os.path.join(d, fn)
+                            new, n = rename_twins.rename_whole_file(open(path).read())
+                            if n:
+                                open(path, "w").write(new)
+            else:
+                import shape_twins
+                dst = os.path.join(tmp, "reshaped")
+                shape_twins.reshape_tree(root, os.path.join(dst, "fparser"), v["transform"])
+                shutil.rmtree(root)
+                shutil.move(os.path.join(dst, "fparser"), root)
         for rel in v.get("prepend", []):
             path = os.path.join(tmp, "src", "fparser", rel)
             text = open(path).read()
@@ -107,6 +126,10 @@ def main():
             vs.append({"id": "%s-twin-line-shift" % c["property_id"], "property": c["property_id"], "kind": "twin", "edits": [],
                        "prepend": ["two/utils.py", "two/Fortran2003.py", "common/readfortran.py", "common/splitline.py",
                                    "common/sourceinfo.py", "two/symbol_table.py", "two/parser.py", "one/statements.py"]})
+            vs.append({"id": "%s-twin-package-renamed" % c["property_id"], "property": c["property_id"], "kind": "twin", "edits": [],
+                       "transform": "rename"})
+            vs.append({"id": "%s-twin-package-reshaped" % c["property_id"], "property": c["property_id"], "kind": "twin", "edits": [],
+                       "transform": "all"})
     except (OSError, ValueError, KeyError):
         pass
     if args.only:
